@@ -22,6 +22,8 @@ type GenOpts struct {
 	ManyRoots  bool    // bias to many parameterless providers (C05)
 	NoSets     bool
 	ForceAsyncRoots bool // parameterless function providers are always Async
+	ManyExt  bool // always create the sibling packages that share one package name
+	ForceRaw int  // static: 1-based index of the raw type case to use for the first static type (0 = random)
 	Wire     bool // google/wire configuration family (single-result providers, everything needed, no Async)
 	Fanout   int // max parameters of a function provider (default 3)
 	ReuseP   int // percent chance that a parameter reuses an already supplied type (diamonds)
@@ -38,6 +40,8 @@ type gen struct {
 	hasCtx   int
 	nameSeq  int
 	setSeq   int
+	forced   bool
+	extNames map[string]bool
 }
 
 var benignNames = []string{"Config", "Database", "Cache", "Logger", "UserRepo", "OrderRepo", "Mailer", "Queue", "Metrics", "Tracer",
@@ -84,6 +88,42 @@ func (g *gen) typeName() string {
 	}
 }
 
+// typeNameIn picks a type name for package pkg; in sibling packages it
+// sometimes reuses the name of a type that lives in another package
+// (dbcfg.Config vs cachecfg.Config).
+func (g *gen) typeNameIn(pkg string) string {
+	if pkg != "" && g.r.Intn(100) < 35 {
+		var cands []string
+		for _, t := range g.s.Types {
+			if t.Name != "" && t.Pkg != pkg && (t.Kind == KStruct || t.Kind == KNamedInt || t.Kind == KNamedStr) && !g.extNames[pkg+"|"+t.Name] && !g.extNameTaken(pkg, t.Name) {
+				cands = append(cands, t.Name)
+			}
+		}
+		if len(cands) > 0 {
+			n := cands[g.r.Intn(len(cands))]
+			g.extNames[pkg+"|"+n] = true
+			return n
+		}
+	}
+	n := g.typeName()
+	if pkg != "" {
+		g.extNames[pkg+"|"+n] = true
+	}
+	return n
+}
+
+// extNameTaken: is name already declared in the package with directory pkg
+// (or in another directory of the same package name, which would be fine, but
+// keep names distinct per package name to keep reflect names unambiguous)?
+func (g *gen) extNameTaken(pkg, name string) bool {
+	for _, t := range g.s.Types {
+		if t.Name == name && t.Pkg == pkg {
+			return true
+		}
+	}
+	return false
+}
+
 func (g *gen) addType(t *Type) int {
 	t.ID = len(g.s.Types)
 	g.s.Types = append(g.s.Types, t)
@@ -93,35 +133,35 @@ func (g *gen) addType(t *Type) int {
 // freshType creates a fresh identity-carrying type of a random kind and
 // returns its id.
 func (g *gen) freshType(allowIface bool) int {
-	if g.o.Static && g.r.Intn(100) < 40 {
+	if g.o.Static && (g.r.Intn(100) < 40 || (g.o.ForceRaw > 0 && !g.forced)) {
 		return g.rawType()
 	}
 	k := g.r.Intn(100)
 	pkg := ""
-	if g.o.Ext && g.r.Intn(100) < 20 {
+	if g.o.Ext && (g.r.Intn(100) < 20 || (g.o.ManyExt && g.r.Intn(100) < 50)) {
 		pkg = g.s.ExtPkgs[g.r.Intn(len(g.s.ExtPkgs))].Dir
 	}
 	switch {
 	case k < 30: // pointer to struct
-		b := g.addType(&Type{Kind: KStruct, Name: g.typeName(), Pkg: pkg, Base: -1})
+		b := g.addType(&Type{Kind: KStruct, Name: g.typeNameIn(pkg), Pkg: pkg, Base: -1})
 		return g.addType(&Type{Kind: KPtr, Base: b})
 	case k < 48:
-		return g.addType(&Type{Kind: KStruct, Name: g.typeName(), Pkg: pkg, Base: -1})
+		return g.addType(&Type{Kind: KStruct, Name: g.typeNameIn(pkg), Pkg: pkg, Base: -1})
 	case k < 58:
-		return g.addType(&Type{Kind: KNamedStr, Name: g.typeName(), Pkg: pkg, Base: -1})
+		return g.addType(&Type{Kind: KNamedStr, Name: g.typeNameIn(pkg), Pkg: pkg, Base: -1})
 	case k < 68:
-		return g.addType(&Type{Kind: KNamedInt, Name: g.typeName(), Pkg: pkg, Base: -1})
+		return g.addType(&Type{Kind: KNamedInt, Name: g.typeNameIn(pkg), Pkg: pkg, Base: -1})
 	case k < 76:
-		b := g.addType(&Type{Kind: KStruct, Name: g.typeName(), Pkg: pkg, Base: -1})
+		b := g.addType(&Type{Kind: KStruct, Name: g.typeNameIn(pkg), Pkg: pkg, Base: -1})
 		return g.addType(&Type{Kind: KSlice, Base: b})
 	case k < 82:
-		b := g.addType(&Type{Kind: KStruct, Name: g.typeName(), Pkg: pkg, Base: -1})
+		b := g.addType(&Type{Kind: KStruct, Name: g.typeNameIn(pkg), Pkg: pkg, Base: -1})
 		return g.addType(&Type{Kind: KMap, Base: b})
 	case k < 88:
-		b := g.addType(&Type{Kind: KStruct, Name: g.typeName(), Pkg: pkg, Base: -1})
+		b := g.addType(&Type{Kind: KStruct, Name: g.typeNameIn(pkg), Pkg: pkg, Base: -1})
 		return g.addType(&Type{Kind: KFunc, Base: b})
 	case k < 92:
-		b := g.addType(&Type{Kind: KStruct, Name: g.typeName(), Pkg: pkg, Base: -1})
+		b := g.addType(&Type{Kind: KStruct, Name: g.typeNameIn(pkg), Pkg: pkg, Base: -1})
 		return g.addType(&Type{Kind: KArray, Base: b})
 	case k < 96:
 		return g.addType(&Type{Kind: KAnon, Name: "H" + g.typeName(), Base: -1})
@@ -129,7 +169,7 @@ func (g *gen) freshType(allowIface bool) int {
 		if allowIface {
 			return g.addType(&Type{Kind: KIface, Name: g.typeName(), Pkg: "", Base: -1})
 		}
-		return g.addType(&Type{Kind: KStruct, Name: g.typeName(), Pkg: pkg, Base: -1})
+		return g.addType(&Type{Kind: KStruct, Name: g.typeNameIn(pkg), Pkg: pkg, Base: -1})
 	}
 }
 
@@ -300,6 +340,9 @@ func (g *gen) valueProvNamed() int {
 // structField creates a provider of a struct (value or pointer) with fresh
 // exported fields, a Struct[...] expansion, and returns one field's type.
 func (g *gen) structField(depth int) int {
+	if g.o.Ext && g.r.Intn(4) == 0 {
+		return g.extStructField(depth)
+	}
 	st := g.addType(&Type{Kind: KStruct, Name: g.typeName(), Base: -1})
 	nf := 1 + g.r.Intn(3)
 	for i := 0; i < nf; i++ {
@@ -402,6 +445,32 @@ func (g *gen) ifaceValue() int {
 	return it
 }
 
+// extStructField: like structField, but the struct and its field types live
+// in a sibling package (Struct[*ext.Config]() / wire.FieldsOf(new(*ext.Config), ...)).
+func (g *gen) extStructField(depth int) int {
+	e := g.s.ExtPkgs[g.r.Intn(len(g.s.ExtPkgs))]
+	st := g.addType(&Type{Kind: KStruct, Name: g.typeNameIn(e.Dir), Pkg: e.Dir, Base: -1})
+	nf := 1 + g.r.Intn(3)
+	for i := 0; i < nf; i++ {
+		k := []Kind{KNamedInt, KNamedStr, KStruct}[g.r.Intn(3)]
+		ft := g.addType(&Type{Kind: k, Name: g.typeNameIn(e.Dir), Pkg: e.Dir, Base: -1})
+		g.s.Types[st].Fields = append(g.s.Types[st].Fields, Field{Name: fmt.Sprintf("X%d%s", i, g.s.Types[st].Name), T: ft})
+	}
+	use := g.addType(&Type{Kind: KPtr, Base: st})
+	if g.r.Intn(5) == 0 {
+		use = st
+	}
+	g.newProv(depth+1, use)
+	g.addProv(&Prov{Kind: PStruct, Results: []int{use}})
+	g.feature("struct-expansion-of-sibling-package-type")
+	var fts []int
+	for _, f := range g.s.Types[st].Fields {
+		fts = append(fts, f.T)
+		g.done = append(g.done, f.T)
+	}
+	return fts[g.r.Intn(len(fts))]
+}
+
 // boundIface creates a provider of a struct implementing a fresh interface,
 // wrapped in Bind, and returns the interface type.
 func (g *gen) boundIface(depth int) int {
@@ -429,6 +498,23 @@ func (g *gen) boundIface(depth int) int {
 			g.feature("bind-unconventional-constructor-with-decoy")
 		default:
 			g.feature("bind-unconventional-constructor")
+		}
+	}
+	if !g.o.Wire && g.r.Intn(5) == 0 {
+		// one provider supplying the bound interface twice: the first result wins
+		// (pinned by the repository's own TestNewGraphMultiTypeProvider)
+		pr := g.s.Provs[p]
+		if g.r.Intn(2) == 0 {
+			// (I, *S): the interface itself is result 0, the implementation result 1
+			pr.Results = []int{it, use}
+			g.feature("bind-on-provider-returning-interface-and-implementation")
+		} else {
+			// (*S1, *S2): both results implement the interface
+			st2 := g.addType(&Type{Kind: KStruct, Name: g.typeName(), Base: -1, Impl: []int{it}})
+			use2 := g.addType(&Type{Kind: KPtr, Base: st2})
+			pr.Results = []int{use, use2}
+			g.done = append(g.done, use2)
+			g.feature("bind-on-provider-with-two-implementations")
 		}
 	}
 	if g.r.Intn(5) == 0 {
@@ -574,7 +660,7 @@ func typeBaseName(s *Spec, t int) string {
 func Generate(seed int64, name string, o GenOpts) *Spec {
 	r := rand.New(rand.NewSource(seed))
 	s := &Spec{Name: name, PkgName: name, Seed: seed, Dynamic: true}
-	g := &gen{r: r, o: o, s: s, budget: o.MaxProvs, names: map[string]bool{}}
+	g := &gen{r: r, o: o, s: s, budget: o.MaxProvs, names: map[string]bool{}, extNames: map[string]bool{}}
 	if o.Ext {
 		e := ExtPkg{Dir: "ext", Name: "ext"}
 		switch r.Intn(3) {
@@ -582,11 +668,11 @@ func Generate(seed int64, name string, o GenOpts) *Spec {
 			e.Alias = "xt"
 		}
 		s.ExtPkgs = []ExtPkg{e}
-		if r.Intn(2) == 0 {
+		if r.Intn(2) == 0 || o.ManyExt {
 			// two more sibling packages that share one package name
 			nm := []string{"store", "config", "client"}[r.Intn(3)]
 			s.ExtPkgs = append(s.ExtPkgs, ExtPkg{Dir: "users/" + nm, Name: nm}, ExtPkg{Dir: "orders/" + nm, Name: nm, Alias: "orders" + nm})
-			if r.Intn(2) == 0 {
+			if r.Intn(2) == 0 || o.ManyExt {
 				s.ExtPkgs = append(s.ExtPkgs, ExtPkg{Dir: "items/" + nm, Name: nm, Alias: "items" + nm})
 			}
 		}
@@ -821,7 +907,7 @@ func (s *Spec) Variant(seed int64, name string, mode string) *Spec {
 		}
 	}
 	// regroup + reorder every injector
-	g := &gen{r: r, s: c, names: map[string]bool{}}
+	g := &gen{r: r, s: c, names: map[string]bool{}, extNames: map[string]bool{}}
 	c.Sets = nil
 	for _, in := range c.Injectors {
 		flat := s.Flatten(in.Items)
